@@ -79,6 +79,22 @@ def stale_reference_classes(case: Any) -> List[Tuple[str, int]]:
     return out
 
 
+def alias_assignment_classes(case: Any) -> List[Tuple[str, int]]:
+    """(final key of the class, base position) of classes whose base expression starts with a name that the module binds
+    by an assignment `name = dotted.name` (expanded at visit time)."""
+    fn = P.fullnames(case)
+    rx = {(r['D'], r['x']): r for r in P.reexports(case)}
+    out = []
+    for mi, m in enumerate(case['mods']):
+        al = {st[1] for st in m['stmts'] if st[0] == 'alias' and '.' in st[2]}
+        for st in m['stmts']:
+            if st[0] == 'class':
+                for pos, b in enumerate(st[3]):
+                    if b.split('.')[0] in al:
+                        out.append((final_key(case, fn, rx, mi, st[1]), pos))
+    return out
+
+
 def moved_classes(case: Any) -> List[str]:
     """final keys of the classes that a re-export moves"""
     fn = P.fullnames(case)
@@ -217,18 +233,25 @@ class Check(PropertyCheck):
     manifest = {
         'text': ('Model/Project.v: the module work-list machine (explicit frame stack = Python\'s call stack of processModule -> '
                  'getProcessedModule) with the registry, per-scope alias maps, visit-time base resolution, __all__ re-exports '
-                 '(reparent) and the second base-resolution pass. PROVED for ALL projects and ALL schedules: the final registry is the '
-                 'one the source text defines, hence keys, class, kind and docstring of every object are order independent '
+                 '(reparent) and the second base-resolution pass. PROVED for ALL projects and ALL schedules: (1) the final registry is '
+                 'the one the source text defines, hence keys, class, kind and docstring of every object are order independent '
                  '(C06_registry_static, C06_registry_order_free; hypotheses: distinct qualified names, no re-exporting import; import '
-                 'cycles allowed; includes termination and no failing assert). REFUTED with vm_compute witnesses (known findings): '
-                 'duplicate name inside an import cycle, stale name of a re-exported object imported from its defining module, bases of '
-                 'a moved class re-resolved in the re-exporter\'s scope, re-export / star import inside an import cycle. Tie: per-'
-                 'schedule diff of the model dump with the real System on EVERY reachable schedule of generated projects; oracle: dumps '
-                 'of the real tool under two schedules are equal (with import cycles: the class hierarchy).'),
-        'note': ('Partial: order independence of resolved bases / linearisations is not proved (sampled by the oracle on all schedules '
-                 'of small projects); positive theorems carry "one binding per name per scope" and "no re-export" (one re-export: '
-                 'C07_moved_once). Five genuine order dependences of pydoctor are recorded as known findings.'),
-        'technique': 'Coq proof (step invariants of an explicit-stack machine) + exhaustive-schedule model/implementation correspondence',
+                 'cycles allowed; includes termination and no failing assert); (2) the base OBJECTS finally kept for every class are '
+                 'order independent, with import cycles (C06_cycles_hierarchy, C06_bases_order_free; extra hypotheses: no star import, '
+                 'no `x = dotted.name` alias statement, imported names bound once and not shadowing definitions / sub-modules / root '
+                 'modules; proof by monotonicity of expandName along a run); (3) the final alias map of every module is a function of '
+                 'its text (C06_alias_maps_syntactic); (4) the orders the tool can realise (depth-first preorders, Spec/'
+                 'ProjectSchedules.v) are among the schedules quantified over (C06_schedules_reachable, C06_registry_tool_orders). '
+                 'REFUTED with vm_compute witnesses (known findings): duplicate name inside an import cycle, stale name of a re-exported '
+                 'object imported from its defining module, bases of a moved class re-resolved in the re-exporter\'s scope, re-export / '
+                 'star import inside an import cycle, `x = m.B` expanded at visit time. Tie: per-schedule diff of the model dump with the '
+                 'real System on EVERY reachable schedule of generated projects; oracle: dumps of the real tool under two schedules '
+                 'are equal (with import cycles: the class hierarchy).'),
+        'note': ('Partial: the linearisation itself is C05\'s (a function of the resolved bases); the positive theorems carry "one '
+                 'binding per name per scope" and "no re-export" (one re-export: C07_moved_once and the C07 reach theorems); star imports '
+                 'and several re-exports per project are covered by correspondence + oracle only. Seven genuine order dependences of '
+                 'pydoctor are recorded as known findings.'),
+        'technique': 'Coq proof (step invariants of an explicit-stack machine, monotone name expansion) + exhaustive-schedule model/implementation correspondence',
     }
 
     # ------------------------------------------------------------------ inputs
@@ -264,8 +287,20 @@ class Check(PropertyCheck):
         return [(c, o[0], im, o[1]) for c, o, im in zip(cases, orders, impl)]
 
     # ------------------------------------------------------------------ check
+    def schedules_definition(self) -> List[Violation]:
+        """The schedules this check enumerates are the `tool_order`s of Spec/ProjectSchedules.v: on the project of
+        C06_schedules_example (Props/C06.v) they are exactly the four orders proved there.  (That the real tool
+        processes the modules in the order given is observed per run: the worker's `order_seen`.)"""
+        c = {'mods': [P.M('pkg', [], pkg=True), P.M('a', [], parent=0), P.M('b', [], parent=0), P.M('top', [])]}
+        got, complete = P.all_reachable_orders(c, 100, self.rng)
+        want = [[0, 1, 2, 3], [0, 2, 1, 3], [3, 0, 1, 2], [3, 0, 2, 1]]
+        if not complete or sorted(got) != sorted(want):
+            return [Violation('correspondence', 'harness schedules differ from tool_order of Spec/ProjectSchedules.v '
+                              '(C06_schedules_example)', case={'case': c, 'orders': got}, expected=want, observed=got)]
+        return []
+
     def correspondence(self) -> List[Violation]:
-        out: List[Violation] = []
+        out: List[Violation] = list(self.schedules_definition())
         cases = self.gen_cases(self.tier == 'thorough')
         t0 = time.time()
         runs = self.run_cases(cases)
@@ -403,6 +438,9 @@ class Check(PropertyCheck):
         stale = set(stale_reference_classes(case))
         if rc and all(x in stale for x in rc) and 'C06-stale-defining-module-name' in by:
             return by['C06-stale-defining-module-name']
+        alias_cls = set(alias_assignment_classes(case))
+        if rc and all(x in alias_cls for x in rc) and 'C06-alias-assignment-visit-time' in by:
+            return by['C06-alias-assignment-visit-time']
         # (a') a class that a re-export moved: compute_mro re-resolves its unresolved bases in the NEW parent module
         moved = set(moved_classes(case))
         if rc and all(x in stale or x[0] in moved for x in rc) and 'C06-moved-class-bases-rescoped' in by:
